@@ -9,6 +9,7 @@ NOTE = ("Trusted: Coq 8.16.1 kernel + vm_compute; harness/gen_tables.py and the 
         "Biopython/re/fs behaviour as modelled (see DESIGN.md section 7). No axioms (Print Assumptions: closed).")
 
 CLAIMED = {
+ "C06": "Invariant proof for the cache state machine over all histories of (class, record) queries: every stored pattern is the structure of the class owning it, hence every answer (is_valid, overhangs, target) equals the answer of the same query issued first; class identity of the 85 kit classes proved by reflection over the table regenerated from the working tree; the pinned MRO lookup is refuted on a witness; _structured.py tied by replaying every ordered pair of kit classes and random histories with run-time subclasses in forked interpreters against the machine, plus a fresh-interpreter oracle.",
  "C03": "Theorems on the model of AssemblyManager over typed elements with arbitrary overhang keys: the outcome is characterised by the overhang graph (product iff the vector's overhangs differ, no two distinct modules share or reverse-complement a start overhang, and the chain from the vector's downstream overhang reaches its upstream overhang; otherwise InvalidSequence / DuplicateModules naming a clashing pair / MissingModule naming the stalled overhang), each module used at most once, unused = exactly the rest, permutation invariance, fuel never exhausted; _assembly.py tied by correspondence at two levels (walk fed with the implementation's overhangs; end to end from raw sequences) over every vector pair x every ordered list of <= 2 modules over an alphabet with reverse-complementary and palindromic overhangs, sampled longer lists in all permutations, mixed case; independent graph oracle.",
  "C19": "Swap theorem on the model of the assembly walk for every module list, position and replacement with the same overhang keys: same chain, same unused set, products equal outside the replaced segment; tied by correspondence of both products from raw sequences for one enzyme of every geometry of the family, and a segment-wise oracle.",
  "C14": "Theorems for all sequences, all coordinates (read modulo n) and all rotations: rc is an involution, the feature table of the reverse complement is a permutation of the flipped features, each part lands on the opposite strand, covers the mirror positions and denotes the reverse complement, flip is an involution, rc commutes with rotation; SeqRecord.reverse_complement/_flip as modelled are tied by exact comparison of (sequence, ordered feature table, tracks) under composed rc/>>/<< operations; the object-level clause (result is a CircularRecord) is decided by the oracle.",
